@@ -246,7 +246,7 @@ def case_strategy(gate: specgen.Gate):
 
 
 def shards(tier: str, seed: int) -> list[dict]:
-    n_sh, per = (16, 50) if tier == "quick" else (48, 400)
+    n_sh, per = (16, 50) if tier == "quick" else (32, 300)
     return [{"seed": seed * 1000 + i, "n": per, "vseed": seed} for i in range(n_sh)]
 
 
